@@ -706,6 +706,8 @@ class Client:
         Returns:
           The value for the key, or default if the key wasn't found.
         """
+        # expire=None would silently drop the mandatory exptime token
+        self._check_integer(expire, "expire")
         return self._fetch_cmd(
             b"gat", [key], False, key_prefix=self.key_prefix, expire=expire
         ).get(key, default)
@@ -767,6 +769,8 @@ class Client:
           or (default, cas_defaults) if the key was not found.
         """
         defaults = (default, cas_default)
+        # expire=None would silently drop the mandatory exptime token
+        self._check_integer(expire, "expire")
         return self._fetch_cmd(
             b"gats", [key], True, key_prefix=self.key_prefix, expire=expire
         ).get(key, defaults)
